@@ -24,3 +24,14 @@ pub fn unhex(s: &str) -> Option<Vec<u8>> {
     }
     Some(out)
 }
+
+/// temp dir on tmpfs when there is one (the engine fsyncs several times per node)
+pub fn fast_tempdir() -> tempfile::TempDir {
+    let shm = std::path::Path::new("/dev/shm");
+    if shm.is_dir() {
+        if let Ok(d) = tempfile::tempdir_in(shm) {
+            return d;
+        }
+    }
+    tempfile::tempdir().expect("tempdir")
+}
